@@ -173,6 +173,14 @@ MIRSYM("insert_items_step", ["C01", "C15", "C04"],
        "insert_items_in_file from any pre-state satisfying Inv: afterwards the tree reaches exactly I u N, each item once, no dangling/orphan node; every over-full bucket is reported in large_descendants by node id and everything reported is a bucket",
        _TREE_BOUNDS, _lazy("e2_tree", "insert_obligation"), site="Writer::insert_items_in_file")
 
+MIRSYM("delete_items_step", ["C01", "C04"],
+       "delete_items_in_file from any pre-state satisfying Inv and any set to delete: the returned root's tree reaches exactly I minus D, each once, no reference to a deleted item or removed node, no orphan; the returned item set is I minus D",
+       _TREE_BOUNDS, _lazy("e2_tree", "delete_obligation"), site="Writer::delete_items_in_file")
+MIRSYM("delete_extra_trees_step", ["C15", "C01", "C10"],
+       "delete_extra_trees on a two-tree forest whose deleted items are already gone from the store: succeeds, removes max(0, roots - target) trees (oldest first) with all their nodes, leaves the other tree intact",
+       "forest = the shape family (root 0) + one bucket tree (id 10); already-deleted item set symbolic; target 0..=3",
+       _lazy("e2_tree", "delete_trees_obligation"), site="Writer::delete_extra_trees/delete_tree")
+
 PROPS = {}
 
 KANI_NOTE = ("Trusted: Kani/CBMC and rustc MIR semantics; the environment models in /verif/models (heed store, "
